@@ -115,6 +115,18 @@ func genMixed(t *rapid.T) Case {
 func TestPropHistory(t *testing.T) { evid.RunProp(t, "history", 1, gen, check) }
 func TestPropMixed(t *testing.T)   { evid.RunProp(t, "mixed", 0.25, genMixed, checkMixed) }
 
+// FuzzHistory: coverage-guided exploration of the same generator (rapid.MakeFuzz turns the fuzzer's bytes into draws).
+func FuzzHistory(f *testing.F) {
+	f.Fuzz(rapid.MakeFuzz(func(t *rapid.T) {
+		c := gen(t)
+		o := check(c)
+		if o.Violation != "" && !(o.Finding != "" && evid.IsKnown(o.Finding)) {
+			evid.Record("fuzzhistory", c, o)
+			t.Fatalf("%s replay=%s", o.Violation, evid.SaveFailure("fuzzhistory"))
+		}
+	}))
+}
+
 func TestReplay(t *testing.T) {
-	evid.Replay(t, evid.R("history", check), evid.R("mixed", checkMixed))
+	evid.Replay(t, evid.R("fuzzhistory", check), evid.R("history", check), evid.R("mixed", checkMixed))
 }
